@@ -26,6 +26,7 @@ def _workaround_for_static_import_finders():
 CDEF_SOURCE_STRING = "<cdef source string>"
 _r_comment = re.compile(r"/\*.*?\*/|//([^\n\\]|\\.)*?$",
                         re.DOTALL | re.MULTILINE)
+_r_define_start = re.compile(r"[ \t]*#[ \t]*define\b")
 _r_other_whitespace = re.compile(r"[\r\f\v]")
 _r_define  = re.compile(r"^\s*#\s*define\s+([A-Za-z_][A-Za-z_0-9]*)"
                         r"\b((?:[^\n\\]|\\.)*?)$",
@@ -203,7 +204,14 @@ def _preprocess(csource):
     # Remove comments.  NOTE: this only work because the cdef() section
     # should not contain any string literals (except in line directives)!
     def replace_keeping_newlines(m):
-        return ' ' + m.group().count('\n') * '\n'
+        n = m.group().count('\n')
+        if n > 0:
+            # a comment spanning several lines inside a '#define' line does
+            # not end that line: keep the line count with continuations
+            linestart = csource.rfind('\n', 0, m.start()) + 1
+            if _r_define_start.match(csource, linestart, m.start()):
+                return ' ' + n * '\\\n'
+        return ' ' + n * '\n'
     csource = _r_comment.sub(replace_keeping_newlines, csource)
     # Remove the "#define FOO x" lines
     macros = {}
